@@ -1,5 +1,5 @@
 (** C09 — serialized objects parse back to the same value.
-    Only statements here; proofs live in theories/C09/{Tokens,FracSweep,Proofs,Reals,Full}.v.
+    Only statements here; proofs live in theories/C09/{Tokens,FracSweep,Proofs,Reals,Full,IncrFull}.v.
 
     FULL STATEMENT (proved below as c09_ser_parse_roundtrip, by structural induction over
     arbitrarily nested arrays/dictionaries; theories/C09/Full.v):
@@ -13,6 +13,13 @@
       c09_ser_parse_roundtrip_strings :
         forall v, wf v = true -> utf8_names v = true -> option_map strview (parse (ser esc_iso v)) = Some (norm v).
     for EVERY tree whose names are Rust Strings (valid UTF-8), not only ASCII ones.
+    INCREMENTAL WRITER (theories/C09/IncrFull.v; names #XX via esc_name, strings always hex, dictionaries
+    "<< /k v /k v >>" sorted by key), the same nested theorem, no [canon] needed:
+      c09_incr_parse_roundtrip :
+        forall v, wf_incr v = true -> parse (ser_incr v) = Some (norm v).
+    where [wf_incr] = [wf] without reals (not modelled by [ser_incr]) and with bytes < 256 in literal strings
+    too (they are written hex); String level c09_incr_parse_roundtrip_strings / c09_incr_parse_strings_canon;
+    verdict link c09_incr_code_never_2.
     The [_partial] theorems are the per-token-class statements the induction is built from;
     c09_lex_nested / c09_parse_nested are its two continuation-style layers.
 
@@ -22,7 +29,7 @@
     where [iso_wf] requires no CR in literal strings and bytes < 256 in names and hex strings — and nothing else: the
     [i g /R] collision, the i64 bound on integral reals and the object-number bound are flaws of the
     library's reader only.  c09_ser_both_readers: both readers, for [wf] values with [iso_extra]. *)
-From OxVerif Require Import Base.Util C09.Model C09.Tokens C09.FracSweep C09.Proofs C09.Reals C09.Full C09.Lex C09.LexFull.
+From OxVerif Require Import Base.Util C09.Model C09.Tokens C09.FracSweep C09.Proofs C09.Reals C09.Full C09.IncrFull C09.Lex C09.LexFull.
 
 (** literal strings: every byte string, whatever follows *)
 Theorem c09_literal_string_roundtrip : forall s rest,
@@ -173,6 +180,71 @@ Proof. exact incr_name_roundtrip_strings. Qed.
 Check c09_incr_name_roundtrip_strings : forall n, Tok.utf8_valid n = true ->
   option_map strview (parse (ser_incr (OName n))) = Some (PName n).
 Print Assumptions c09_incr_name_roundtrip_strings.
+
+(** THE NESTED THEOREM FOR THE INCREMENTAL WRITER: every tree [ser_incr] models (arbitrary nesting; every
+    name/key of bytes, #XX-escaped; every string of bytes, written hex; dictionaries sorted by key) parses
+    back to [norm v] itself — the entries come back in [sort_kv] order, which is [norm]'s, so no [canon] *)
+Theorem c09_incr_parse_roundtrip : forall v, wf_incr v = true -> parse (ser_incr v) = Some (norm v).
+Proof. exact incr_parse_roundtrip. Qed.
+Check c09_incr_parse_roundtrip : forall v, wf_incr v = true -> parse (ser_incr v) = Some (norm v).
+Print Assumptions c09_incr_parse_roundtrip.
+(** in the shape the checker of channel [incr] judges by *)
+Theorem c09_incr_parse_roundtrip_canon : forall v, wf_incr v = true ->
+  option_map canon (parse (ser_incr v)) = Some (canon (norm v)).
+Proof. exact incr_parse_roundtrip_canon. Qed.
+Check c09_incr_parse_roundtrip_canon : forall v, wf_incr v = true ->
+  option_map canon (parse (ser_incr v)) = Some (canon (norm v)).
+Print Assumptions c09_incr_parse_roundtrip_canon.
+(** [wf_incr] asks nothing that [wf] does not, except: no reals, literal strings of bytes *)
+Theorem c09_wf_incr_wf : forall v, wf_incr v = true -> wf v = true.
+Proof. exact wf_incr_wf. Qed.
+Check c09_wf_incr_wf : forall v, wf_incr v = true -> wf v = true.
+Print Assumptions c09_wf_incr_wf.
+(** its bytes -> tokens layer in continuation form (the tokens -> value layer is c09_parse_nested) *)
+Theorem c09_incr_lex_nested : forall v rest f, wf_incr v = true -> good_rest rest -> (length (toks v) <= f)%nat ->
+  lex_all f (ser_incr v ++ rest) = toks v ++ lex_all (f - length (toks v)) rest.
+Proof. exact incr_lex_all_gen. Qed.
+Check c09_incr_lex_nested : forall v rest f, wf_incr v = true -> good_rest rest -> (length (toks v) <= f)%nat ->
+  lex_all f (ser_incr v ++ rest) = toks v ++ lex_all (f - length (toks v)) rest.
+Print Assumptions c09_incr_lex_nested.
+(** String level: every tree of Rust Strings (valid UTF-8 names) reads back with the same Strings *)
+Theorem c09_incr_parse_roundtrip_strings : forall v, wf_incr v = true -> utf8_names v = true ->
+  option_map strview (parse (ser_incr v)) = Some (norm v).
+Proof. exact incr_parse_roundtrip_strings. Qed.
+Check c09_incr_parse_roundtrip_strings : forall v, wf_incr v = true -> utf8_names v = true ->
+  option_map strview (parse (ser_incr v)) = Some (norm v).
+Print Assumptions c09_incr_parse_roundtrip_strings.
+Theorem c09_incr_parse_strings_canon : forall v, wf_incr v = true -> utf8_names v = true ->
+  parse_strings (ser_incr v) = Some (canon (norm v)).
+Proof. exact incr_parse_strings_canon. Qed.
+Check c09_incr_parse_strings_canon : forall v, wf_incr v = true -> utf8_names v = true ->
+  parse_strings (ser_incr v) = Some (canon (norm v)).
+Print Assumptions c09_incr_parse_strings_canon.
+(** link to the verdict of channel [incr] (FULL, no opobj_eqb-soundness needed: with equal bytes the model bit
+    and the property bit of [incr_code] are the same test): "model agrees, property fails" is impossible *)
+Theorem c09_incr_code_bytes_agree : forall v bs p, wf_incr v = true -> utf8_names v = true ->
+  bytes_eqb (ser_incr v) bs = true ->
+  incr_code (v, bs, p) = code_of (opobj_eqb (Some (canon (norm v))) p) (opobj_eqb (Some (canon (norm v))) p).
+Proof. exact incr_code_bytes_agree. Qed.
+Check c09_incr_code_bytes_agree : forall v bs p, wf_incr v = true -> utf8_names v = true ->
+  bytes_eqb (ser_incr v) bs = true ->
+  incr_code (v, bs, p) = code_of (opobj_eqb (Some (canon (norm v))) p) (opobj_eqb (Some (canon (norm v))) p).
+Print Assumptions c09_incr_code_bytes_agree.
+Theorem c09_incr_code_never_2 : forall v bs p, wf_incr v = true -> utf8_names v = true -> incr_code (v, bs, p) <> 2.
+Proof. exact incr_code_never_2. Qed.
+Check c09_incr_code_never_2 : forall v bs p, wf_incr v = true -> utf8_names v = true -> incr_code (v, bs, p) <> 2.
+Print Assumptions c09_incr_code_never_2.
+(** non-vacuity: a dictionary containing an array containing a non-ASCII name, a string with parentheses,
+    a reference and nested dictionaries satisfies [wf_incr]; what [wf_incr] excludes *)
+Example c09_incr_nonvacuous : wf_incr incr_sample = true /\ utf8_names incr_sample = true
+  /\ ascii_names incr_sample = false /\ wf incr_sample = true
+  /\ parse (ser_incr incr_sample) = Some (norm incr_sample)
+  /\ parse_strings (ser_incr incr_sample) = Some (canon (norm incr_sample)).
+Proof. exact incr_sample_ok. Qed.
+Example c09_incr_excluded : wf_incr (OReal false 1500000) = false /\ ser_incr (OReal false 1500000) = []
+  /\ wf_incr (OArr [OInt 1; OInt 0; OName name_R]) = false
+  /\ parse (ser_incr (OArr [OInt 1; OInt 0; OName name_R])) = Some (PArr [PRef 1 0]).
+Proof. exact incr_excluded. Qed.
 
 (** non-vacuity *)
 Example c09_nonvacuous : wf sample_names = true /\ wf_pinned sample_names = false /\ ascii_names sample_names = true
